@@ -97,10 +97,14 @@ def render_kbd(desc):
     out.append("(defsrc " + " ".join(desc["keys"]) + ")")
     for g, d in desc.get("chords", {}).items():
         out.append("(defchords %s %d %s)" % (g, d["T"], " ".join("(%s) %s" % (" ".join(ks), render(o)) for ks, o in d["chords"])))
-    for (ins, outs) in desc.get("overrides", []):
-        out.append("(defoverrides (%s) (%s))" % (" ".join(ins), " ".join(outs)))
+    if desc.get("overrides"):
+        out.append("(defoverrides " + " ".join("(%s) (%s)" % (" ".join(ins), " ".join(outs)) for (ins, outs) in desc["overrides"]) + ")")
     for x in desc.get("extra", []):
         out.append(x)
+    if desc.get("chordsv2"):
+        out.append("(defchordsv2 " + " ".join(
+            "(%s) %s %d %s (%s)" % (" ".join(ch["ks"]), render(ch["o"]), ch.get("T", 3), ch.get("rel", "all-released"),
+                                    " ".join(cfgdesc.lname(l) for l in ch.get("dis", []))) for ch in desc["chordsv2"]) + ")")
     for i, layer in enumerate(desc["layers"]):
         out.append("(deflayer %s %s)" % (cfgdesc.lname(i), " ".join(render(layer.get(k, TR)) for k in desc["keys"])))
     return "\n".join(out) + "\n"
@@ -117,7 +121,8 @@ def params_of(desc):
         for k in desc["keys"]:
             a = par(layer.get(k, TR), desc)
             # chords v2 (text level): a key of a v2 chord can, besides its layer action, put the chord's output down
-            v2 = [(ks, o) for (ks, o) in desc.get("chordsv2", []) if k in ks]
+            # (not on a layer the chord is disabled on)
+            v2 = [(ch["ks"], ch["o"]) for ch in desc.get("chordsv2", []) if k in ch["ks"] and li not in ch.get("dis", [])]
             if v2:
                 a = {"t": "multi", "acs": [a, {"t": "chordv1", "acs": [par(o, desc) for (ks, o) in v2],
                                               "kss": [[c(q) for q in ks] for (ks, o) in v2], "others": []}]}
@@ -157,6 +162,11 @@ def family(tier, rng):
         io = {"qmax": qmax}
         if "track_hist" in kw:      # switch conditions on held keys only: the key history need not be in the model state
             io["track_hist"] = kw.pop("track_hist")
+        if "v2_depth" in kw:        # chords v2 in L1 (ChordsV2.tla): bounds as in C09 (schedules of at most `depth` steps)
+            dep = kw.pop("v2_depth")
+            io["v2"] = True
+            io["constraint"] = "V2Bound"
+            io["bound_defs"] = "V2Bound == Len(hist) <= %d /\\ Len(K.L.chv2.ach) <= 3\n" % dep
         if "os_bound" in kw:        # re-pressing a one-shot key stacks coordinates (16-entry ring): bounded as in C06
             n = kw.pop("os_bound")
             io["constraint"] = "OsBound"
@@ -193,7 +203,25 @@ def family(tier, rng):
     add("three_layers", "abc", [{"a": X, "b": LWH(1), "c": LWH(2)},
                                 {"a": Y, "b": TR, "c": TR},
                                 {"a": CH(["lsft"], "z"), "b": TR, "c": TR}], qmax=2 if tier == "quick" else 3)
+    # chained overrides: an override's output is another override's input and the action lists both keys (the table must
+    # hold the override outputs of a key that is already listed as an override output)
+    OVC = [(["lsft", "x"], ["y"]), (["lctl", "y"], ["z"])]
+    add("ovr_chain_fork", "abc", [{"a": FORK(X, Y, ["lctl"]), "b": K("lsft"), "c": K("lctl")}], qmax=2, overrides=OVC)
+    # chords v2 (in L1): a key in two chords, the earlier-defined one disabled on the layer
+    V2A = [{"ks": ["a", "b"], "o": K("1"), "T": 2, "dis": [0]}, {"ks": ["a", "c"], "o": CH(["lsft"], "2"), "T": 2}]
+    add("v2_shared_key", "abc", [{"a": X, "b": Y, "c": Z}], qmax=2, v2_depth=11 if tier == "quick" else 16,
+        defcfg={"concurrent-tap-hold": "yes"}, chordsv2=V2A)
     if tier == "thorough":
+        add("v2_shared_key_rev", "abc", [{"a": X, "b": Y, "c": Z}], qmax=2, v2_depth=16,
+            defcfg={"concurrent-tap-hold": "yes"}, chordsv2=V2A[::-1])
+        add("v2_two_layers", "abcd", [{"a": X, "b": Y, "c": Z, "d": LSW(1)}, {"a": W}], qmax=2, v2_depth=14,
+            defcfg={"concurrent-tap-hold": "yes"},
+            chordsv2=[{"ks": ["a", "b"], "o": K("1"), "T": 2, "dis": [1]}, {"ks": ["a", "c"], "o": K("2"), "T": 2}])
+        for fn, act in (("th", TH(X, Y, 2)), ("td", TD(2, X, Y)), ("multi", MULTI(X, Y)),
+                        ("switch", SW(("(lctl)", Y, "break"), ("()", X, "break")))):
+            add("ovr_chain_" + fn, "abc", [{"a": act, "b": K("lsft"), "c": K("lctl")}], qmax=2, overrides=OVC,
+                track_hist=False)
+        add("ovr_chain_rev_th", "abc", [{"a": TH(Y, X, 2), "b": K("lsft"), "c": K("lctl")}], qmax=2, overrides=OVC)
         add("unshift_multi", "abc", [{"a": MULTI(K("lsft"), UNSHIFT("x")), "b": K("lsft"), "c": UNMOD("y", "z")}])
         add("three_layers_trans", "abc", [{"a": X, "b": LWH(1), "c": LWH(2)},
                                           {"a": Y, "b": TR, "c": TR},
@@ -258,8 +286,18 @@ def extra_configs(tier):
         E.append(("seq_" + mode.replace("-", "_"), d))
     E.append(("chordsv2", {"keys": ["a", "b", "c"], "layers": [{"a": K("x"), "b": K("y"), "c": K("lsft")}],
                            "defcfg": {"concurrent-tap-hold": "yes"},
-                           "extra": ["(defchordsv2 (a b) S-z 4 all-released ())"],
-                           "chordsv2": [(["a", "b"], CH(["lsft"], "z"))]}))
+                           "chordsv2": [{"ks": ["a", "b"], "o": CH(["lsft"], "z"), "T": 4}]}))
+    # a key that takes part in two v2 chords, the earlier-defined one disabled on the layer switched to (and the
+    # mirrored definition order): the later chord's output must still be repeated there
+    for nm, order in (("chordsv2_dis", (0, 1)), ("chordsv2_dis_rev", (1, 0))):
+        chs = [{"ks": ["a", "b"], "o": K("1"), "T": 4, "dis": [1]}, {"ks": ["a", "c"], "o": CH(["lsft"], "2"), "T": 4}]
+        E.append((nm, {"keys": ["a", "b", "c", "d"],
+                       "layers": [{"a": K("x"), "b": K("y"), "c": K("z"), "d": LSW(1)}, {"a": K("w")}],
+                       "defcfg": {"concurrent-tap-hold": "yes"}, "chordsv2": [chs[i] for i in order]}))
+    # chained overrides: the output of one override is the input of another, and the action lists both keys
+    E.append(("ovr_chain_th", {"keys": ["a", "b", "c"],
+                               "layers": [{"a": TH(K("x"), K("y"), 3), "b": K("lsft"), "c": K("lctl")}],
+                                 "defcfg": {}, "overrides": [(["lsft", "x"], ["y"]), (["lctl", "y"], ["z"])]}))
     E.append(("overrides", {"keys": ["a", "b", "c"], "layers": [{"a": K("x"), "b": K("lsft"), "c": CH(["lsft"], "x")}],
                             "defcfg": {}, "overrides": [(["lsft", "x"], ["y"])]}))
     return E
@@ -278,6 +316,15 @@ def scripted(desc):
             S.append([["d", b], ["t", 2], ["d", a], ["t", 1], ["r", a], ["t", 1], ["r", a], ["r", b], ["t", 6], ["r", a], ["r", b],
                       ["u", b], ["t", 1], ["r", a], ["t", 2], ["r", a], ["u", a], ["t", 8]])
             S.append([["d", b], ["t", 1], ["u", b], ["t", 1], ["d", a], ["t", 1], ["r", a], ["t", 3], ["r", a], ["t", 8], ["r", a], ["u", a], ["t", 8]])
+    if len(ks) >= 3:
+        for p in ks:
+            for a in ks:
+                for b in ks:
+                    if len({p, a, b}) < 3:
+                        continue
+                    for first in ([["d", p], ["t", 2], ["u", p], ["t", 2]], [["d", p], ["t", 3]]):
+                        S.append(first + [["d", a], ["d", b], ["t", 1], ["r", a], ["r", b], ["t", 7], ["r", a], ["r", b], ["t", 2],
+                                          ["u", b], ["t", 2], ["r", a], ["u", a], ["t", 2], ["u", p], ["t", 8]])
     return S
 
 
@@ -298,13 +345,18 @@ def run(tier, seed):
                 "view": VIEW, "extra_defs": KR_PROBE, "invariants": ["StutterProbe", "KrProbe"]}
         inst.update(io)
         inst["extra_defs"] = KR_PROBE + inst.pop("bound_defs", "")
-        r = mc.check_instance(inst, wd, workers=8, timeout=1500)
+        if inst.pop("v2", False):
+            inst["universe"] = keys + [0]          # TRIGGER_TAPHOLD_COORD (0, 0) is dequeued like a key
+            inst["view"] = "<<CvCanonK([K EXCEPT !.out = <<>>]), phys, mon>>"
+            inst["extra_guard"] = "/\\ Len(K.L.chv2.q) + Len(K.L.queue) < QMax"
+        inst["extra_tags"] = ["KRDIFF"]      # mc.check_instance removes the TLC output after extracting the probes
+        r = mc.check_instance(inst, wd, workers=6, timeout=1500)
         res.add_instance(r)
-        nd = extract_prints(r["tlc_out"], "KRDIFF", os.path.join(wd, "c14_%s.krdiff.json" % name))
+        nd = r.get("n_krdiff", 0)
         if nd:
             table_diffs += 1
             res.notes.append("KeyOutputs table of the parser differs from KeyRepeat!KrOutputs on %s: %s" %
-                             (name, open(os.path.join(wd, "c14_%s.krdiff.json" % name)).read().strip()[:300]))
+                             (name, open(r["krdiff_file"]).read().strip()[:300]))
         if len(res.samples) < 3:
             res.samples.append({"instance": name, "kbd": kbd, "states": r["states"], "edges": r.get("edges")})
         ws = flow.witness_scripts(r["monerr_file"], 30) + flow.witness_scripts(r["panic_file"], 10)
@@ -338,7 +390,7 @@ def run(tier, seed):
                     "view": VIEW, "invariants": []}
             inst.update(io)
             inst["extra_defs"] = inst.pop("bound_defs", "")
-            r = mc.check_instance(inst, wd, workers=8, timeout=1500, replay=False)
+            r = mc.check_instance(inst, wd, workers=6, timeout=1500, replay=False)
             rejected[bug] = r["n_monerr"]
             if not r["n_monerr"]:
                 raise ToolError("model mutant %s of KeyRepeat.tla is not rejected by P_C14 on %s" % (bug, iname))
